@@ -1339,7 +1339,7 @@ func (g *reGen) item(d int) string {
 }
 
 func (g *reGen) concat(d int) string {
-	n := rapid.SampledFrom([]int{0, 1, 1, 1, 2, 2, 3, 4}).Draw(g.t, "items")
+	n := rapid.SampledFrom([]int{1, 2, 1, 0, 1, 2, 3, 4}).Draw(g.t, "items")
 	var sb strings.Builder
 	for i := 0; i < n; i++ {
 		sb.WriteString(g.item(d))
@@ -1379,9 +1379,9 @@ func genRegex(t *rapid.T, subject string) (string, map[string]bool) {
 	g.pool = append(g.pool, []rune(rapid.SampledFrom(rndAlphabet).Draw(t, "poolextra"))...)
 	var re string
 	switch k := rapid.IntRange(0, 19).Draw(t, "rekind"); {
-	case k == 0:
+	case k == 19:
 		re = ""
-	case k <= 2:
+	case k >= 17:
 		re = rapid.SampledFrom(handRegexes).Draw(t, "hand")
 		if _, err := regexp.Compile(re); err != nil {
 			re = ""
